@@ -673,22 +673,46 @@ func checkWaitSharednessOrder(c *core.Ctx) {
 				return true
 			}
 			found = true
-			var shared, lastAddr token.Pos
-			ast.Inspect(cc, func(y ast.Node) bool {
-				if se, ok := y.(*ast.SelectorExpr); ok {
-					switch se.Sel.Name {
-					case "ErrRuntimeExpectedSharedMemory":
-						if shared == 0 {
-							shared = se.Pos()
+			// the sequence of trap kinds in source order, with the bodies of package-level helpers called from the arm
+			// spliced in at the call (one level)
+			var seq []string
+			var walkSeq func(n ast.Node, depth int)
+			walkSeq = func(n ast.Node, depth int) {
+				ast.Inspect(n, func(y ast.Node) bool {
+					switch z := y.(type) {
+					case *ast.SelectorExpr:
+						switch z.Sel.Name {
+						case "ErrRuntimeExpectedSharedMemory", "ErrRuntimeUnalignedAtomic", "ErrRuntimeOutOfBoundsMemoryAccess":
+							seq = append(seq, z.Sel.Name)
 						}
-					case "ErrRuntimeUnalignedAtomic", "ErrRuntimeOutOfBoundsMemoryAccess":
-						if shared == 0 {
-							lastAddr = se.Pos()
+					case *ast.CallExpr:
+						if f := core.Callee(info, z); f != nil && depth < 1 {
+							core.AllFuncDecls(ip, func(g *ast.FuncDecl) {
+								if info.Defs[g.Name] == types.Object(f) && g.Name.Name != interpExecLoopName(ip) {
+									walkSeq(g.Body, depth+1)
+								}
+							})
 						}
 					}
+					return true
+				})
+			}
+			walkSeq(cc, 0)
+			shared, lastAddr := 0, 0
+			before := map[string]bool{}
+			for i, k := range seq {
+				if k == "ErrRuntimeExpectedSharedMemory" {
+					if shared == 0 {
+						shared = i + 1
+					}
+				} else if shared == 0 {
+					before[k] = true
 				}
-				return true
-			})
+			}
+			// both address checks (alignment and bounds) precede the first sharedness test
+			if before["ErrRuntimeUnalignedAtomic"] && before["ErrRuntimeOutOfBoundsMemoryAccess"] {
+				lastAddr = 1
+			}
 			c.Check(shared != 0 && lastAddr != 0, "R01.15", "memory.atomic.wait: sharedness is tested after the address checks on both engines", cc.Pos(),
 				"the interpreter's first sharedness test follows an alignment and bounds test, as in the compiler (generated address checks, then the Go-side sharedness test)",
 				"the interpreter tests the memory's sharedness before the alignment and bounds of the address, the compiler after them: on a non-shared memory an unaligned (or out-of-bounds) address traps with 'expected shared memory' on one engine and 'unaligned atomic' ('out of bounds memory access') on the other")
